@@ -50,7 +50,25 @@ func Load(repoDir, pkgRel, harnessDir string) (*Program, error) {
 		}
 		overlay[v] = b
 	}
+	// go.mod/go.sum are used through copies (-modfile) so that the go command
+	// can never rewrite the repository's own files (a harness may import a
+	// package of an indirect dependency).
+	modDir, err := os.MkdirTemp("", "symgo-mod-")
+	if err != nil {
+		return nil, err
+	}
+	defer os.RemoveAll(modDir)
+	for _, f := range []string{"go.mod", "go.sum"} {
+		b, err := os.ReadFile(filepath.Join(repoDir, f))
+		if err != nil {
+			return nil, err
+		}
+		if err := os.WriteFile(filepath.Join(modDir, f), b, 0o644); err != nil {
+			return nil, err
+		}
+	}
 	cfg := &packages.Config{
+		BuildFlags: []string{"-modfile=" + filepath.Join(modDir, "go.mod")},
 		Mode: packages.NeedName | packages.NeedFiles | packages.NeedCompiledGoFiles | packages.NeedImports |
 			packages.NeedDeps | packages.NeedTypes | packages.NeedSyntax | packages.NeedTypesInfo | packages.NeedTypesSizes | packages.NeedModule,
 		Dir:     pkgDir,
